@@ -657,7 +657,13 @@ def expandable(
 
                 total = prod(obj.total for obj in objs)
 
-                def _expand_if_we_can_can_can() -> Iterator[Tuple[HOrOutcomeT, int]]:
+                def _expand_if_we_can_can_can() -> Iterable[Tuple[HOrOutcomeT, int]]:
+                    # This is deliberately not a generator. A StopIteration escaping
+                    # from the callback must reach our caller like any other exception,
+                    # but one escaping from a generator's frame is replaced by a
+                    # RuntimeError (PEP 479).
+                    evaluated_counts: List[Tuple[HOrOutcomeT, int]] = []
+
                     for result_counts in product(
                         *(
                             _h_or_p_or_p_with_selection_to_result_iterable(obj)
@@ -696,7 +702,9 @@ def expandable(
                         finally:
                             _expandable_ctxt.reset(token)
 
-                        yield evaluated, combined_count
+                        evaluated_counts.append((evaluated, combined_count))
+
+                    return evaluated_counts
 
                 res = aggregate_weighted(_expand_if_we_can_can_can())
 
